@@ -404,7 +404,7 @@ theorem inv_convertToExternal (verbose : Bool) (inp : List (String × Nat)) :
   simp only []
   exact inv_bind (inv_mapM' (fun p => inv_materializeOne S _ p) _) (fun ids => inv_placeAndWrite S verbose _ ids)
 
-theorem inv_unload (names : List String) (verbose : Bool) : Inv I (unload names dest verbose) := by
+theorem inv_unload {thr : Nat} (names : List String) (verbose : Bool) : Inv I (unload thr names dest verbose) := by
   unfold unload
   refine inv_bind inv_get (fun s => ?_)
   refine inv_bind (inv_mapM' (fun i => inv_extToMem S.toStable0 _) _) (fun memIds => ?_)
@@ -423,7 +423,7 @@ theorem inv_save {I : St → Prop} (cfg : Cfg) (sig : List (String × Bool)) (tn
   · exact inv_throw _
   · split
     · exact inv_throw _
-    have hir : Inv I (irSave sig tnames dir name (name ++ ".data") verbose) := by
+    have hir : Inv I (irSave cfg.thr sig tnames dir name (name ++ ".data") verbose) := by
       unfold irSave
       refine inv_bind inv_get (fun s0 => ?_)
       apply inv_tryFinally
@@ -525,8 +525,8 @@ theorem stable_untouched (fs0 : FS) (k0 : Option Nat) (dest mp : String) : Stabl
   inval := fun _ _ _ _ _ _ h _ _ => h
 
 /-- The `const_value` pointers after the call are the ones before it — `finally` of `ir.save`. -/
-theorem irSave_cv (sig : List (String × Bool)) (tnames : List String) (dir name rel : String) (verbose : Bool) (s : St) :
-    (irSave sig tnames dir name rel verbose s).2.cv = s.cv := by
+theorem irSave_cv (thr : Nat) (sig : List (String × Bool)) (tnames : List String) (dir name rel : String) (verbose : Bool) (s : St) :
+    (irSave thr sig tnames dir name rel verbose s).2.cv = s.cv := by
   unfold irSave
   show (M.bind get _ s).2.cv = s.cv
   simp only [M.bind, get, tryFinally]
@@ -542,8 +542,8 @@ theorem save_cv (cfg : Cfg) (sig : List (String × Bool)) (tnames : List String)
     · rfl
     split
     · simp only [tryFinally]
-      exact irSave_cv sig tnames dir name _ verbose s
-    · exact irSave_cv sig tnames dir name _ verbose s
+      exact irSave_cv _ sig tnames dir name _ verbose s
+    · exact irSave_cv _ sig tnames dir name _ verbose s
 
 /-- With the name-restoring `finally` (`cfg.keepNames`), the tensor names after the call are the ones before it. -/
 theorem save_tn (cfg : Cfg) (hkn : cfg.keepNames = true) (sig : List (String × Bool)) (tnames : List String)
